@@ -18,6 +18,80 @@ thread_local! {
 
 static DIR_SEQ: AtomicU64 = AtomicU64::new(0);
 
+// ---- call watchdog -------------------------------------------------------------------------------
+// A handler that never returns would make a check hang instead of answering. Every request issued through
+// this module is registered here; a background thread ends the process (after running the registered
+// handler, or printing an `@@HUNG` line for the parent) when one has been running for too long.
+struct InFlight {
+    since: std::time::Instant,
+    what: String,
+}
+static IN_FLIGHT: std::sync::Mutex<Vec<(u64, InFlight)>> = std::sync::Mutex::new(Vec::new());
+static CALL_SEQ: AtomicU64 = AtomicU64::new(1);
+static HANG_LIMIT_MS: AtomicU64 = AtomicU64::new(120_000);
+static WATCHDOG_STARTED: std::sync::Once = std::sync::Once::new();
+#[allow(clippy::type_complexity)]
+static HANG_HANDLER: std::sync::Mutex<Option<Box<dyn Fn(&str) + Send>>> = std::sync::Mutex::new(None);
+
+pub const HUNG_EXIT: i32 = 97;
+
+/// Real time after which a request that has not returned counts as hung.
+pub fn set_hang_limit(d: std::time::Duration) {
+    HANG_LIMIT_MS.store(d.as_millis() as u64, Ordering::SeqCst);
+}
+
+/// What to do (before the process exits with HUNG_EXIT) when a request hangs; default: print `@@HUNG <what>`.
+pub fn set_hang_handler(f: Box<dyn Fn(&str) + Send>) {
+    *HANG_HANDLER.lock().unwrap_or_else(|e| e.into_inner()) = Some(f);
+}
+
+fn watchdog_start() {
+    WATCHDOG_STARTED.call_once(|| {
+        std::thread::spawn(|| loop {
+            std::thread::sleep(std::time::Duration::from_millis(500));
+            let limit = std::time::Duration::from_millis(HANG_LIMIT_MS.load(Ordering::SeqCst));
+            let hung: Option<String> = {
+                let g = IN_FLIGHT.lock().unwrap_or_else(|e| e.into_inner());
+                g.iter().find(|(_, f)| f.since.elapsed() > limit).map(|(_, f)| f.what.clone())
+            };
+            if let Some(what) = hung {
+                let what = format!("no answer within {} s: {}", limit.as_secs(), what);
+                match HANG_HANDLER.lock().unwrap_or_else(|e| e.into_inner()).as_ref() {
+                    Some(h) => h(&what),
+                    None => println!("@@HUNG {}", what.replace('\n', " ")),
+                }
+                use std::io::Write;
+                let _ = std::io::stdout().flush();
+                std::process::exit(HUNG_EXIT);
+            }
+        });
+    });
+}
+
+struct CallGuard(u64);
+
+fn call_begin(what: &str) -> CallGuard {
+    watchdog_start();
+    let id = CALL_SEQ.fetch_add(1, Ordering::SeqCst);
+    let mut w = what.to_string();
+    if w.len() > 600 {
+        let mut e = 600;
+        while !w.is_char_boundary(e) {
+            e -= 1;
+        }
+        w.truncate(e);
+        w.push('…');
+    }
+    IN_FLIGHT.lock().unwrap_or_else(|e| e.into_inner()).push((id, InFlight { since: std::time::Instant::now(), what: w }));
+    CallGuard(id)
+}
+
+impl Drop for CallGuard {
+    fn drop(&mut self) {
+        IN_FLIGHT.lock().unwrap_or_else(|e| e.into_inner()).retain(|(i, _)| *i != self.0);
+    }
+}
+
 /// Root of all scratch directories of this process.
 pub fn scratch_root() -> PathBuf {
     let base = std::env::var("VERIF_SCRATCH").ok().map(PathBuf::from).unwrap_or_else(|| {
@@ -187,6 +261,7 @@ impl Inst {
     pub fn call_text(&mut self, req: &str) -> CallOutcome {
         self.uses += 1;
         let methods = self.methods.as_ref().expect("instance closed");
+        let _g = call_begin(req);
         let r = catch_unwind(AssertUnwindSafe(|| RT.with(|rt| rt.block_on(methods.raw_json_request(req, 1)))));
         match r {
             Ok(Ok((resp, _))) => CallOutcome::Resp(serde_json::from_str(resp.get()).expect("response json")),
@@ -203,6 +278,7 @@ impl Inst {
         self.uses += 1;
         let req = format!(r#"{{"jsonrpc":"2.0","id":1,"method":"{}","params":{}}}"#, method, params);
         let methods = self.methods.as_ref().expect("instance closed");
+        let _g = call_begin(&req);
         let r = catch_unwind(AssertUnwindSafe(|| RT.with(|rt| rt.block_on(methods.raw_json_request(&req, 1)))));
         match r {
             Ok(Ok((resp, _))) => Some(resp.get().to_string()),
@@ -275,6 +351,7 @@ impl Drop for Inst {
 /// Issue a request on a dispatch table from any thread (each thread has its own runtime).
 pub fn call_on(methods: &Methods, method: &str, params: &Value) -> CallOutcome {
     let req = json!({"jsonrpc": "2.0", "id": 1, "method": method, "params": params}).to_string();
+    let _g = call_begin(&req);
     let r = catch_unwind(AssertUnwindSafe(|| RT.with(|rt| rt.block_on(methods.raw_json_request(&req, 1)))));
     match r {
         Ok(Ok((resp, _))) => CallOutcome::Resp(serde_json::from_str(resp.get()).expect("response json")),
